@@ -45,7 +45,7 @@ func c11predicates(c *Ctx, p *pkgT) {
 			funcs = append(funcs, fn)
 		}
 	}
-	sort.Slice(funcs, func(i, j int) bool { return c.P.Decl(funcs[i]).Pos() < c.P.Decl(funcs[j]).Pos() })
+	sort.Slice(funcs, func(i, j int) bool { return c.P.PosLess(c.P.Decl(funcs[i]).Pos(), c.P.Decl(funcs[j]).Pos()) })
 	pairs := e.boxPairs(false)
 	found := map[string]bool{}
 	for _, f := range funcs {
